@@ -47,6 +47,7 @@ void reg_clear();
 void reg_name( void const* addr, size_t len, std::string const& name );
 std::string name_of( void const* addr );     // "name", "name+off" or "@hex"
 bool has_name( void const* addr );
+void reg_alias( uint64_t value, std::string const& name );   // render this 64-bit integer value symbolically (thread ids)
 
 // client events (only meaningful from a scheduled thread)
 int current_tid();
